@@ -17,7 +17,7 @@ RULE = ("AIOW: the real minicbor_io::AsyncWriter driven by a hand-rolled determi
 ASSUMPTIONS = ["wake-ups and real executors are not modelled",
                "the inner AsyncWrite honours its contract (n <= buf.len(); nothing accepted on Pending / Err)",
                "callers follow the protocol of the property: after a dropped or failed write, sync is driven to completion before the next write",
-               "payload length + 4 < 2^32 (debug-mode `len as u32 - 4`); 64-bit usize"]
+               "max_len < 2^32 (set_max_len takes a u32); 64-bit usize"]
 
 def base_vals():
     return [["01"], ["."], ["0102"], [".", "."], ["01", "."], [".", "01"], ["!aa", "."], [".", "!aa"], ["!.", "01"], ["010203"], [".", ".", "!bb"]]
